@@ -158,6 +158,10 @@ func (c *IPClient) measureClockOffsetIP(ctx context.Context, mtrcs *ipClientMetr
 		ntpreq.OriginTime = c.prev.sRxTime
 		ntpreq.ReceiveTime = c.prev.cRxTime
 		ntpreq.TransmitTime = c.prev.cTxTime
+		// The stored timestamps identify this request. Use them only once: if
+		// this exchange fails, the next request must be distinguishable from
+		// this one, i.e. a basic request with a fresh transmit timestamp.
+		c.prev.reference = ""
 	} else {
 		ntpreq.TransmitTime = ntp.Time64FromTime(cTxTime0)
 	}
